@@ -51,16 +51,18 @@ type world struct {
 	under         *transaction.Transaction // by p, fees above the balance
 	overLimit     *transaction.Transaction // by p, affordable, system fee above MaxBlockSystemFee
 	extraOK       *transaction.Transaction // by q, plain valid transfer not in B
-	setupV        *transaction.Transaction // named by the Conflicts attribute of the on-chain setupT0 (same signer p); never sent
-	setupT0       util.Uint256
-	marker        util.Uint256 // on-chain tx of the setup block with a still valid ValidUntilBlock
+	oc            map[string]*ocCase       // per on-chain-Conflicts catalogue entry (setup block only)
+	vals3         ck.Actor                 // multisig that has to sign block N+3 (after B2)
+	rootB2        util.Uint256             // state root after B2
+	marker        util.Uint256             // on-chain tx of the setup block with a still valid ValidUntilBlock
 
 	B     *block.Block
 	Braw  []byte
 	B2    *block.Block
 	B2raw []byte
 
-	okAtN map[util.Uint256]bool // crafted txs admitted alone by the builder at N
+	okAtN map[util.Uint256]bool  // crafted txs admitted alone by the builder at N
+	balOf map[util.Uint160]int64 // GAS balances of the accounts at N
 
 	twins map[int]*twinSnap
 }
@@ -163,17 +165,24 @@ func sign(b *block.Block, a ck.Actor) {
 // craft builds a signed GAS transfer of 1 datoshi unit from `from` with exact (or overpaid) network fee.
 // sysFee < 0: measured by a test invocation. netFee < 0: exact requirement + extraNet.
 func (w *world) craft(from ck.Key, to util.Uint160, nonce uint32, vub uint32, attrs []transaction.Attribute, sysFee int64, netFee int64, extraNet int64) *transaction.Transaction {
+	return w.craftMulti([]ck.Key{from}, to, nonce, vub, attrs, sysFee, netFee, extraNet)
+}
+
+// craftMulti is craft with several signers (the first one is the sender and the source of the transfer).
+func (w *world) craftMulti(signers []ck.Key, to util.Uint160, nonce uint32, vub uint32, attrs []transaction.Attribute, sysFee int64, netFee int64, extraNet int64) *transaction.Transaction {
 	bc := w.b.N.BC
 	bw := io.NewBufBinWriter()
-	emit.AppCall(bw.BinWriter, nativehashes.GasToken, "transfer", callflag.All, from.Hash, to, int64(1), nil)
+	emit.AppCall(bw.BinWriter, nativehashes.GasToken, "transfer", callflag.All, signers[0].Hash, to, int64(1), nil)
 	emit.Opcodes(bw.BinWriter, opcode.ASSERT)
 	tx := &transaction.Transaction{
 		Nonce:           nonce,
 		ValidUntilBlock: vub,
 		Script:          bw.Bytes(),
 		Attributes:      attrs,
-		Signers:         []transaction.Signer{{Account: from.Hash, Scopes: transaction.CalledByEntry}},
-		Scripts:         []transaction.Witness{{InvocationScript: make([]byte, 66), VerificationScript: from.Ver}},
+	}
+	for _, k := range signers {
+		tx.Signers = append(tx.Signers, transaction.Signer{Account: k.Hash, Scopes: transaction.CalledByEntry})
+		tx.Scripts = append(tx.Scripts, transaction.Witness{InvocationScript: make([]byte, 66), VerificationScript: k.Ver})
 	}
 	if sysFee < 0 {
 		g, _ := w.b.TestInvoke(tx)
@@ -181,13 +190,30 @@ func (w *world) craft(from ck.Key, to util.Uint160, nonce uint32, vub uint32, at
 	}
 	tx.SystemFee = sysFee
 	if netFee < 0 {
-		vf, _ := fee.Calculate(bc.GetBaseExecFee(), from.Ver)
-		netFee = vf + int64(io.GetVarSize(tx))*bc.FeePerByte() + bc.CalculateAttributesFee(tx) + extraNet
+		netFee = int64(io.GetVarSize(tx))*bc.FeePerByte() + bc.CalculateAttributesFee(tx) + extraNet
+		for _, k := range signers {
+			vf, _ := fee.Calculate(bc.GetBaseExecFee(), k.Ver)
+			netFee += vf
+		}
 	}
 	tx.NetworkFee = netFee
-	tx.Scripts[0].InvocationScript = ck.Single(from).Invocation(tx)
+	for i, k := range signers {
+		tx.Scripts[i].InvocationScript = ck.Single(k).Invocation(tx)
+	}
 	return tx
 }
+
+// ocCase is one on-chain-Conflicts situation prepared by the setup block: the on-chain transaction Bc names the
+// never-sent transaction A in one of its Conflicts attributes.
+type ocCase struct {
+	A       *transaction.Transaction
+	sibling *transaction.Transaction // same signers as A, named by nobody: tells whether A is fine apart from the conflict
+	sibOK   bool
+	labels  []string
+}
+
+// ocKinds are the catalogue entries served by the setup block, in this order.
+var ocKinds = []string{"tx-conflict-onchain", "tx-conflict-onchain-s2", "tx-conflict-onchain-s3", "tx-conflict-onchain-nocommon"}
 
 func conflictsAttr(h util.Uint256) []transaction.Attribute {
 	return []transaction.Attribute{{Type: transaction.ConflictsT, Value: &transaction.Conflicts{Hash: h}}}
@@ -245,19 +271,74 @@ func buildWorld(c Case) (*world, error) {
 	if c.Setup {
 		h := bc.BlockHeight() // the setup block is h+1 = N, the corrupted block N+1 = h+2
 		inc := bc.GetMaxValidUntilBlockIncrement()
-		// V: valid at N for block N+1, never sent. T0: on chain, names V, same signer.
-		v := w.craft(w.p, w.q.Hash, 0xC0600001, h+2, nil, -1, -1, 0)
-		t0 := w.craft(w.p, w.q.Hash, 0xC0600002, h+1, conflictsAttr(v.Hash()), -1, -1, 0)
 		mv := h + 1
 		if inc >= 2 {
 			mv = h + 2
 		}
 		m := w.craft(w.q, w.p.Hash, 0xC0600003, mv, nil, -1, -1, 0)
 		var txs []*transaction.Transaction
-		scratch := mempool.New(4, false, nil)
-		if bc.PoolTx(cloneTx(t0), scratch) == nil {
-			txs = append(txs, t0)
-			w.setupV, w.setupT0 = v, t0.Hash()
+		scratch := mempool.New(16, false, nil)
+		// On-chain Conflicts situations: A (valid at N for block N+1, never sent) is named by the on-chain Bc.
+		// X is the common signer; its position among A's signers is fixed per entry, everything else is drawn
+		// from Corr.X: X's position among Bc's signers, the number of Conflicts attributes of Bc (1..3) and
+		// which of them names A (the others name transactions nobody ever saw).
+		acc := func(i int) ck.Key { return ck.Accounts[((c.Acct+i)%ck.NAccounts+ck.NAccounts)%ck.NAccounts] }
+		X, Y, Z, W, V := acc(0), acc(1), acc(2), acc(3), acc(4)
+		w.oc = map[string]*ocCase{}
+		for t, kind := range ocKinds {
+			v := mix(uint64(c.Corr.X)*31 + uint64(t))
+			var aS, bS []ck.Key
+			oc := &ocCase{}
+			switch t {
+			case 0:
+				aS = []ck.Key{X}
+			case 1:
+				aS = []ck.Key{Y, X}
+			case 2:
+				aS = []ck.Key{Y, Z, X}
+			default: // control: no common signer
+				aS = []ck.Key{Y}
+				if v&(1<<20) != 0 {
+					aS = []ck.Key{Y, Z}
+				}
+			}
+			switch {
+			case t == 3 && v%2 == 0:
+				bS = []ck.Key{W}
+			case t == 3:
+				bS = []ck.Key{W, V}
+			case v%3 == 0:
+				bS = []ck.Key{X}
+			case v%3 == 1:
+				bS = []ck.Key{W, X}
+				oc.labels = append(oc.labels, "oc-common-signer-second-on-chain")
+			default:
+				bS = []ck.Key{W, V, X}
+				oc.labels = append(oc.labels, "oc-common-signer-third-on-chain")
+			}
+			nattr := 1 + int(v>>8)%3
+			k := int(v>>16) % nattr
+			if nattr > 1 && (v>>24)%4 != 0 { // mostly NOT the first named hash
+				k = 1 + int(v>>16)%(nattr-1)
+			}
+			if k > 0 {
+				oc.labels = append(oc.labels, "oc-named-not-first")
+			}
+			oc.A = w.craftMulti(aS, W.Hash, 0xC0620000+uint32(t), h+2, nil, -1, -1, 0)
+			oc.sibling = w.craftMulti(aS, W.Hash, 0xC0620100+uint32(t), h+2, nil, -1, -1, 0)
+			var attrs []transaction.Attribute
+			for j := 0; j < nattr; j++ {
+				hsh := util.Uint256{0xEE, byte(t), byte(j)}
+				if j == k {
+					hsh = oc.A.Hash()
+				}
+				attrs = append(attrs, conflictsAttr(hsh)...)
+			}
+			bcTx := w.craftMulti(bS, Y.Hash, 0xC0620200+uint32(t), h+1, attrs, -1, -1, 0)
+			if bc.PoolTx(cloneTx(bcTx), scratch) == nil {
+				txs = append(txs, bcTx)
+				w.oc[kind] = oc
+			}
 		}
 		if bc.PoolTx(cloneTx(m), scratch) == nil {
 			txs = append(txs, m)
@@ -321,6 +402,13 @@ func buildWorld(c Case) (*world, error) {
 		w.overLimit = w.craft(w.p, w.q.Hash, 0xC061000C, N+1, nil, lim+1, -1, 0)
 	}
 	w.okAtN = map[util.Uint256]bool{}
+	w.balOf = map[util.Uint160]int64{}
+	for _, k := range ck.Accounts {
+		w.balOf[k.Hash] = bc.GetUtilityTokenBalance(k.Hash, util.Uint160{}).Int64()
+	}
+	for _, oc := range w.oc {
+		oc.sibOK = w.validAlone(oc.sibling)
+	}
 	for _, tx := range []*transaction.Transaction{w.cV, w.cTlow, w.cThigh, w.cTother, w.extraOK} {
 		w.okAtN[tx.Hash()] = w.validAlone(tx)
 	}
@@ -334,6 +422,10 @@ func buildWorld(c Case) (*world, error) {
 	if w.B2raw, w.B2, err = b.BuildBlock(c.After); err != nil {
 		return nil, fmt.Errorf("block after next: %v", err)
 	}
+	if w.vals3, err = b.ValidatorsActor(); err != nil {
+		return nil, err
+	}
+	w.rootB2 = bc.GetStateModule().CurrentLocalStateRoot()
 	if w.B.Index != w.N+1 || w.B2.Index != w.N+2 {
 		return nil, errors.New("harness: unexpected block indexes")
 	}
